@@ -783,7 +783,7 @@ func (v Value) toReflectValue(typ reflect.Type) (reflect.Value, error) {
 		// We convert to float64 here because converting to int64 will not tell us
 		// if a value is outside the range of int64
 		tmp := toIntegerFloat(v)
-		if tmp < floatMinInt || tmp > floatMaxInt {
+		if tmp < floatMinInt || tmp >= -floatMinInt {
 			return reflect.Value{}, fmt.Errorf("RangeError: %f (%v) to int", tmp, v)
 		}
 		return reflect.ValueOf(int(tmp)).Convert(typ), nil
@@ -809,7 +809,7 @@ func (v Value) toReflectValue(typ reflect.Type) (reflect.Value, error) {
 		// We convert to float64 here because converting to int64 will not tell us
 		// if a value is outside the range of int64
 		tmp := toIntegerFloat(v)
-		if tmp < floatMinInt64 || tmp > floatMaxInt64 {
+		if tmp < floatMinInt64 || tmp >= floatMaxInt64 {
 			return reflect.Value{}, fmt.Errorf("RangeError: %f (%v) to int", tmp, v)
 		}
 		return reflect.ValueOf(int64(tmp)).Convert(typ), nil
@@ -817,7 +817,7 @@ func (v Value) toReflectValue(typ reflect.Type) (reflect.Value, error) {
 		// We convert to float64 here because converting to int64 will not tell us
 		// if a value is outside the range of uint
 		tmp := toIntegerFloat(v)
-		if tmp < 0 || tmp > floatMaxUint {
+		if tmp < 0 || tmp >= -2*floatMinInt {
 			return reflect.Value{}, fmt.Errorf("RangeError: %f (%v) to uint", tmp, v)
 		}
 		return reflect.ValueOf(uint(tmp)).Convert(typ), nil
@@ -843,7 +843,7 @@ func (v Value) toReflectValue(typ reflect.Type) (reflect.Value, error) {
 		// We convert to float64 here because converting to int64 will not tell us
 		// if a value is outside the range of uint64
 		tmp := toIntegerFloat(v)
-		if tmp < 0 || tmp > floatMaxUint64 {
+		if tmp < 0 || tmp >= floatMaxUint64 {
 			return reflect.Value{}, fmt.Errorf("RangeError: %f (%v) to uint64", tmp, v)
 		}
 		return reflect.ValueOf(uint64(tmp)).Convert(typ), nil
